@@ -628,3 +628,67 @@ fn c16_total_end_postamble() {
 fn c16_total_rule_forms() {
     decode_total::<10>(132, 132, 8);
 }
+
+/// Totality for the string-carrying opcodes with their length bytes pinned to small constants (a
+/// symbolic string length makes the copy of the payload a symbolic-size memcpy, which exceeded memory).
+/// Every other byte and every truncation length are symbolic / enumerated as constants.
+fn decode_total_pinned<const CAP: usize>(code: u8, idx1: usize, idx2: usize, max_len: u8) {
+    let bytes: [u8; CAP] = kani::any();
+    let mut l1: u8 = 0;
+    let mut oks = 0u32;
+    let mut truncs = 0u32;
+    while l1 <= max_len {
+        let mut l2: u8 = 0;
+        while l2 <= (if idx2 == 0 { 0 } else { max_len }) {
+            let mut arr = bytes;
+            arr[0] = code;
+            arr[idx1] = l1;
+            if idx2 != 0 {
+                arr[idx2] = l2;
+            }
+            let mut len = 1;
+            while len <= CAP {
+                let r = Op::deserialize(&arr[..len]);
+                match &r {
+                    Ok(Some((_, tail))) => {
+                        assert!(tail.len() < len);
+                        oks += 1;
+                    }
+                    Ok(None) => panic!("non-empty input decoded to nothing"),
+                    Err(InvalidDviData::Truncated(c)) => {
+                        assert!(*c == code);
+                        truncs += 1;
+                    }
+                    Err(InvalidDviData::InvalidOpCode(_)) => panic!("valid opcode reported invalid"),
+                }
+                std::mem::forget(r);
+                len += 1;
+            }
+            l2 += 1;
+        }
+        l1 += 1;
+    }
+    kani::cover!(oks > 0, "some input decodes");
+    kani::cover!(truncs > 0, "some input is truncated");
+}
+
+#[kani::proof]
+#[kani::unwind(8)]
+#[kani::stub(std::string::String::from_utf8_lossy, from_utf8_lossy_ascii_model)]
+fn c16_total_xxx1_pinned() {
+    decode_total_pinned::<5>(239, 1, 0, 2);
+}
+
+#[kani::proof]
+#[kani::unwind(20)]
+#[kani::stub(std::string::String::from_utf8_lossy, from_utf8_lossy_ascii_model)]
+fn c16_total_pre_pinned() {
+    decode_total_pinned::<17>(247, 14, 0, 2);
+}
+
+#[kani::proof]
+#[kani::unwind(20)]
+#[kani::stub(std::string::String::from_utf8_lossy, from_utf8_lossy_ascii_model)]
+fn c16_total_fnt_def1_pinned() {
+    decode_total_pinned::<17>(243, 14, 15, 1);
+}
